@@ -44,7 +44,7 @@ func init() {
 		Cases:         func(tier string) int { return pick(tier, 12000, 400000) },
 		Run:           c03Run,
 		Init:          c03Init,
-		MinDistinct:   func(tier string) int { return pick(tier, 900, 2500) },
+		MinDistinct:   func(tier string) int { return pick(tier, 900, 1200) },
 		WorkerTimeout: func(tier string) time.Duration { return time.Duration(pick(tier, 25, 240)) * time.Minute },
 	})
 }
